@@ -5,6 +5,8 @@ struct SynthInfo {
 	size_t bytesServed = 0;
 	bool exhausted = false;
 	int scalars = 0;
+	std::vector<const void*> readRefs, readStrs; // NiRef / NiStringRef objects that were read (addresses inside the block)
+	uint32_t blockId = 0;
 };
 std::vector<std::string> allBlockTypes();
 const std::vector<std::pair<std::string, nifly::NiVersion>>& synthVersions();
